@@ -1383,4 +1383,113 @@ theorem isActive_of_matches (r : Registry) (a b : RR) (hm : a.matchesRR b = true
   obtain ⟨c, hc, hbc⟩ := h
   exact ⟨c, hc, RR.matchesRR_trans hm hbc⟩
 
+/-! ### the two announcements, per function -/
+
+/-- the announcement: PTR (and subtype PTR) to `target`, then the given unique records, as answers -/
+def announcePkt (svc : Service) (target : BList) (recs : List RR) : Packet :=
+  { flags := FLAGS_RESPONSE, answers := ptrRecords svc target TTL_OTHER ++ recs }
+
+/-- the converse of `prepareAnnouncePkt_some`: with an in-subnet address of the family and all
+    unique records active the announcement is built -/
+theorem prepareAnnouncePkt_of_active (svc : Service) (i : MyIntf) (r : Registry) (v4 : Bool)
+    (hne : addrsOn svc i v4 ≠ []) (hact : ∀ a ∈ uniqueRecords svc i r v4, r.isActive a = true) :
+    prepareAnnouncePkt svc i r v4 =
+      some (announcePkt svc (r.resolveName svc.fullname) (uniqueRecords svc i r v4)) := by
+  unfold prepareAnnouncePkt
+  have : (uniqueRecords svc i r v4).all r.isActive = true := List.all_eq_true.mpr hact
+  simp [hne, this]
+  rfl
+
+theorem mem_sendsOf (i : MyIntf) (p4 p6 : Option Packet) (v4 : Bool) (p : Packet)
+    (h : (if v4 then p4 else p6) = some p) : Out.send i.index v4 none p ∈ sendsOf i p4 p6 := by
+  unfold sendsOf
+  cases v4
+  · simp only [Bool.false_eq_true, ↓reduceIte] at h
+    simp [h]
+  · simp only [↓reduceIte] at h
+    simp [h]
+
+/-- FIRST ANNOUNCEMENT (the body of `probing_handler` for a woken service): a registered service
+    that is not yet `Announced` on interface `i` and whose unique records of family `v4` are all
+    active there (with an in-subnet address) is announced: the packet with PTR (and subtype PTR),
+    SRV, TXT and the addresses as answers leaves on `i` over that family, the monitors get
+    `Announce`, the status becomes `Announced`, and the second announcement is queued - with a
+    timer - for one second later. -/
+theorem wakeService_announces (now j : Nat) (i : MyIntf) (acc : State × List Out) (name : BList) (svc : Service) (v4 : Bool)
+    (hsvc : alookup (lower name) acc.1.services = some svc) (hnot : svc.announcedOn i.index = false)
+    (hne : addrsOn svc i v4 ≠ [])
+    (hact : ∀ a ∈ uniqueRecords svc i (acc.1.registry i.index) v4, (acc.1.registry i.index).isActive a = true) :
+    Out.send i.index v4 none (announcePkt svc ((acc.1.registry i.index).resolveName svc.fullname) (uniqueRecords svc i (acc.1.registry i.index) v4)) ∈ (wakeService now j i acc name).2 ∧
+    (∃ svc', alookup (lower name) (wakeService now j i acc name).1.services = some svc' ∧ svc'.announcedOn i.index = true) ∧
+    ReRun.registerResend (now + 1000) svc.fullname i.index ∈ (wakeService now j i acc name).1.reruns ∧
+    (now + 1000) ∈ (wakeService now j i acc name).1.timers ∧
+    (∀ ch ∈ acc.1.monitors, ∃ e, Out.event ch e ∈ (wakeService now j i acc name).2) := by
+  have a1 := prepareAnnounceReg_active svc i (acc.1.registry i.index) true now j
+  -- the packet of the family `v4`, whichever registry version the code looks at
+  have hp4 : v4 = true → prepareAnnouncePkt svc i (acc.1.registry i.index) true = some (announcePkt svc ((acc.1.registry i.index).resolveName svc.fullname) (uniqueRecords svc i (acc.1.registry i.index) true)) := by
+    intro e; subst e
+    exact prepareAnnouncePkt_of_active svc i _ true hne hact
+  have hp6 : v4 = false → prepareAnnouncePkt svc i (prepareAnnounceReg svc i (acc.1.registry i.index) true now j) false =
+      some (announcePkt svc ((acc.1.registry i.index).resolveName svc.fullname) (uniqueRecords svc i (acc.1.registry i.index) false)) := by
+    intro e; subst e
+    rw [prepareAnnouncePkt_congr a1.1 a1.2]
+    exact prepareAnnouncePkt_of_active svc i _ false hne hact
+  have hsome : ((prepareAnnouncePkt svc i (acc.1.registry i.index) true).isSome ||
+      (prepareAnnouncePkt svc i (prepareAnnounceReg svc i (acc.1.registry i.index) true now j) false).isSome) = true := by
+    cases v4
+    · simp [hp6 rfl]
+    · simp [hp4 rfl]
+  unfold wakeService
+  simp only [hsvc, hnot, Bool.false_eq_true, ↓reduceIte, hsome]
+  refine ⟨?_, ⟨_, alookup_aset_self _ _ _, by rw [announcedOn_setStatus]; simp⟩, ?_, ?_, ?_⟩
+  · simp only [List.mem_append]
+    refine Or.inl (Or.inr (mem_sendsOf i _ _ v4 _ ?_))
+    cases v4
+    · simpa using hp6 rfl
+    · simpa using hp4 rfl
+  · simp [State.setRegistry]
+  · simp [State.setRegistry]
+  · intro ch hch
+    simp only [List.mem_append, notify, List.mem_map]
+    exact ⟨_, Or.inr ⟨ch, hch, rfl⟩⟩
+
+/-- SECOND ANNOUNCEMENT (`RegisterResend`): for a registered service that requires probing and
+    is `Announced` on the interface (so that, by the invariant `SvcSound`, its unique records of
+    some family are active there), the re-run sends the announcement again - same record set -
+    on that interface over that family. -/
+theorem registerResend_announces (s : State) (now j : Nat) (fullname : BList) (i : MyIntf) (svc : Service) (r0 : Registry)
+    (hsvc : alookup (lower fullname) s.services = some svc) (hreg : alookup i.index s.registries = some r0)
+    (hfind : s.intfs.find? (·.index == i.index) = some i) (huniq : ∀ i' ∈ s.intfs, i'.index = i.index → i' = i)
+    (hprobe : svc.probe = true) (hann : svc.announcedOn i.index = true) (hsound : SvcSound s svc) :
+    ∃ v4, addrsOn svc i v4 ≠ [] ∧
+      Out.send i.index v4 none (announcePkt svc (r0.resolveName svc.fullname) (uniqueRecords svc i r0 v4)) ∈
+        (execRegisterResend s now j fullname i.index).2 := by
+  obtain ⟨i', hi', hidx, v4, hne, hact⟩ := hsound hprobe i.index hann
+  have : i' = i := huniq i' hi' hidx
+  subst this
+  have hr : s.registry i'.index = r0 := registry_of_lookup hreg
+  rw [hr] at hact
+  have a1 := prepareAnnounceReg_active svc i' r0 true now j
+  refine ⟨v4, hne, ?_⟩
+  have hp4 : v4 = true → prepareAnnouncePkt svc i' r0 true = some (announcePkt svc (r0.resolveName svc.fullname) (uniqueRecords svc i' r0 true)) := by
+    intro e; subst e
+    exact prepareAnnouncePkt_of_active svc i' _ true hne hact
+  have hp6 : v4 = false → prepareAnnouncePkt svc i' (prepareAnnounceReg svc i' r0 true now j) false =
+      some (announcePkt svc (r0.resolveName svc.fullname) (uniqueRecords svc i' r0 false)) := by
+    intro e; subst e
+    rw [prepareAnnouncePkt_congr a1.1 a1.2]
+    exact prepareAnnouncePkt_of_active svc i' _ false hne hact
+  have hsome : ((prepareAnnouncePkt svc i' r0 true).isSome ||
+      (prepareAnnouncePkt svc i' (prepareAnnounceReg svc i' r0 true now j) false).isSome) = true := by
+    cases v4
+    · simp [hp6 rfl]
+    · simp [hp4 rfl]
+  unfold execRegisterResend
+  simp only [hsvc, hreg, hfind, hsome, ↓reduceIte]
+  simp only [List.mem_append]
+  refine Or.inl (mem_sendsOf i' _ _ v4 _ ?_)
+  cases v4
+  · simpa using hp6 rfl
+  · simpa using hp4 rfl
+
 end Mdns.Responder
